@@ -237,6 +237,27 @@ func linearCases() []*pcase {
 			out = append(out, c)
 		}
 	}
+	// start rates given in other units than one second (non-negative slopes: the negative ones are the known finding above)
+	for _, u := range []struct {
+		f int
+		p time.Duration
+	}{{1, 100 * time.Millisecond}, {5, 100 * time.Millisecond}, {2, time.Millisecond}, {600, time.Minute}, {3, 2 * time.Second}, {7, 333 * time.Microsecond}} {
+		for _, sl := range []float64{0, 1, 2, 100} {
+			a, b := sl, float64(u.f)/u.p.Seconds()
+			c := &pcase{kind: "linear", desc: fmt.Sprintf("linear{startAt=%d/%s,slope=%g}", u.f, u.p, sl), class: "valid",
+				p: vegeta.LinearPacer{StartAt: vegeta.Rate{Freq: u.f, Per: u.p}, Slope: sl}, tEnd: maxI64, per: int64(time.Second)}
+			c.S = func(t int64) float64 {
+				x := float64(t) / 1e9
+				if x <= 0 {
+					return 0
+				}
+				return a*x*x/2 + b*x
+			}
+			c.rate = func(t int64) float64 { return (a*float64(t)/1e9 + b) / 1e9 }
+			c.rmax = b / 1e9
+			out = append(out, c)
+		}
+	}
 	// parameter classes of the embedded rate
 	for _, fp := range []struct {
 		f int
@@ -679,6 +700,14 @@ func pointwise(c *pcase) (evals int, vs []pviol) {
 		seen[oracle] = true
 		vs = append(vs, pviol{keyOf(c, oracle), map[string]any{"pacer": c.desc, "oracle": oracle, "mode": "pointwise",
 			"call": map[string]any{"elapsed_ns": e, "hits": h}, "got": map[string]any{"wait_ns": w, "stop": stop}, "note": note}})
+	}
+	// Rate is part of the Pacer interface: no parameter values make it panic either
+	for _, e := range es {
+		evals++
+		if _, pan := rateOf(c.p, e); pan != nil {
+			add("panic", e, 0, 0, false, fmt.Sprint("Rate panicked: ", pan))
+			break
+		}
 	}
 	for _, e := range es {
 		for _, h := range hs {
